@@ -7,7 +7,7 @@ use num_traits::{Pow, Signed};
 use rateslib::dual::{Dual, Dual2, Gradient1, Gradient2, MathFuncs, Vars};
 use serde_json::{json, Value};
 
-pub const LARGE_SIZES: [usize; 14] = [7, 8, 9, 15, 16, 17, 31, 32, 33, 63, 64, 65, 100, 130];
+pub const LARGE_SIZES: [usize; 17] = [7, 8, 9, 15, 16, 17, 31, 32, 33, 63, 64, 65, 100, 130, 255, 256, 257];
 
 /// `stored`: 0 names stored in index order, 1 reversed, 2 rotated by 5
 pub fn large_unary(size: usize, stored: u8, second: bool, prop: &str, case: Value, idx: u64, acc: &mut Acc) {
